@@ -152,7 +152,7 @@ def inlined(facts, body, depth=0, stack=(), t1=True, t2=True):
 # ======================================================================================================
 
 STAGES = {'filter', 'map', 'filter_map'}
-CONSUMERS = {'for_each', 'all', 'any', 'find', 'collect', 'extend', 'retain', 'retain_mut', 'fold'}
+CONSUMERS = {'for_each', 'all', 'any', 'find', 'collect', 'extend', 'retain', 'retain_mut', 'fold', 'try_for_each', 'partition'}
 
 BOOL_TY = {'k': 'prim', 'name': 'bool', 's': 'bool'}
 UNK_TY = {'k': 'other', 's': '?'}
@@ -506,7 +506,7 @@ def desugar_adaptors(facts, body, blocks, locals_, depth, stack, t1=True):
             continue
         tr = c.get('trait') or ''
         d = c.get('def') or ''
-        is_iter_consumer = tr.endswith('iter::Iterator') and name in ('for_each', 'all', 'any', 'find', 'collect', 'fold')
+        is_iter_consumer = tr.endswith('iter::Iterator') and name in ('for_each', 'all', 'any', 'find', 'collect', 'fold', 'try_for_each', 'partition')
         is_extend = tr.endswith('iter::Extend') and name == 'extend'
         is_retain = name in ('retain', 'retain_mut') and ('Vec' in d or 'Map' in d or 'Set' in d or 'VecDeque' in d)
         if not (is_iter_consumer or is_extend or is_retain):
@@ -540,7 +540,7 @@ def desugar_adaptors(facts, body, blocks, locals_, depth, stack, t1=True):
             break
         stages.reverse()
         cons_clo = None
-        if name in ('for_each', 'all', 'any', 'find', 'retain', 'retain_mut', 'fold'):
+        if name in ('for_each', 'all', 'any', 'find', 'retain', 'retain_mut', 'fold', 'try_for_each', 'partition'):
             cons_clo = _closure_of(facts, blocks, t['args'][-1])
             if cons_clo is None:
                 continue
@@ -635,7 +635,7 @@ def desugar_adaptors(facts, body, blocks, locals_, depth, stack, t1=True):
             tmpd = B.local()
             exit_stmts.append(B.assign(dest, {'k': 'use', 'op': _mv(tmpd)}))
             dl = tmpd
-        if name in ('for_each', 'all', 'any', 'find', 'retain', 'retain_mut', 'fold'):
+        if name in ('for_each', 'all', 'any', 'find', 'retain', 'retain_mut', 'fold', 'try_for_each', 'partition'):
             cl, cb = cons_clo
             cin = inlined(facts, cb, depth + 1, stack + (body.uid,), t1, True)
             env_ref = cin.locals[1]['ty'].get('k') == 'ref'
@@ -647,7 +647,7 @@ def desugar_adaptors(facts, body, blocks, locals_, depth, stack, t1=True):
                 params = [env_bind, _mv(acc), _mv(cur_item)]
             elif name in ('retain', 'retain_mut') and cin.arg_count == 3:
                 params = [env_bind, _cp(cur_item, [_tuple_field(0)]), _cp(cur_item, [_tuple_field(1)])]
-            elif name == 'find':
+            elif name in ('find', 'partition'):
                 params = [env_bind, {'k': 'rv', 'rv': {'k': 'ref', 'mut': False, 'place': _pl(cur_item)}}]
             else:
                 params = [env_bind, _cp(cur_item)]
@@ -680,6 +680,27 @@ def desugar_adaptors(facts, body, blocks, locals_, depth, stack, t1=True):
                 blocks[cont]['stmts'].append(B.use(acc, _mv(ret)))
                 blocks[cont]['term'] = {'k': 'goto', 'target': head}
                 exit_stmts.insert(0, B.use(dl, _mv(acc)))
+            elif name == 'try_for_each':
+                # `Ok(())` unless the closure returns an `Err`, which ends the walk and is the result
+                pre.append(B.assign(_pl(dl), _agg(RES, 'Ok', 0, [{'k': 'const', 'ty': {'k': 'tuple', 'elems': [], 's': '()'}, 'val': None, 's': '()'}])))
+                d3 = B.local(ISIZE)
+                blocks[cont]['stmts'].append(B.assign(_pl(d3), {'k': 'discr', 'place': _pl(ret)}))
+                hit = B.block([B.use(dl, _mv(ret))], {'k': 'goto', 'target': exit_b})
+                blocks[cont]['term'] = {'k': 'switch', 'discr': _mv(d3), 'discr_ty': ISIZE, 'targets': [[0, head], [1, hit]], 'otherwise': hit, 'span': t['span']}
+            elif name == 'partition':
+                # two collections: the items the predicate accepts, and the others
+                ca, cb2 = B.local(), B.local()
+                ra = B.local({'k': 'ref', 'mut': True, 'ty': UNK_TY, 's': '&mut ?'})
+                rb = B.local({'k': 'ref', 'mut': True, 'ty': UNK_TY, 's': '&mut ?'})
+                ta, tb = B.local(), B.local()
+                yes = B.block([B.assign(_pl(ra), {'k': 'ref', 'mut': True, 'place': _pl(ca)})], B.call(_pseudo_callee('insert'), [_mv(ra), _mv(cur_item)], ta, head))
+                no = B.block([B.assign(_pl(rb), {'k': 'ref', 'mut': True, 'place': _pl(cb2)})], B.call(_pseudo_callee('insert'), [_mv(rb), _mv(cur_item)], tb, head))
+                blocks[cont]['term'] = {'k': 'switch', 'discr': _cp(ret), 'discr_ty': BOOL_TY, 'targets': [[0, no]], 'otherwise': yes, 'span': t['span']}
+                # both collections are created before the loop, the pair is built after it
+                n1 = B.block()
+                n2 = B.block()
+                pre_blocks = (n1, n2, ca, cb2)
+                exit_stmts.insert(0, B.assign(_pl(dl), {'k': 'agg', 'agg': 'tuple', 'ops': [_mv(ca), _mv(cb2)]}))
         elif name == 'collect':
             nb = B.block()
             # dest = new collection before the loop
@@ -698,7 +719,13 @@ def desugar_adaptors(facts, body, blocks, locals_, depth, stack, t1=True):
         # ---- wire PRE and EXIT
         blocks[exit_b]['stmts'] = exit_stmts
         blocks[exit_b]['term'] = {'k': 'goto', 'target': target}
-        if pre and pre[0] == ('call-new', dl):
+        if name == 'partition' and cons_clo:
+            n1, n2, ca, cb2 = pre_blocks
+            blk['stmts'].extend(pre)
+            blk['term'] = B.call(_pseudo_callee('new'), [], ca, n1)
+            blocks[n1]['term'] = B.call(_pseudo_callee('new'), [], cb2, n2)
+            blocks[n2]['term'] = {'k': 'goto', 'target': head}
+        elif pre and pre[0] == ('call-new', dl):
             pre = pre[1:]
             mid = B.block(pre, {'k': 'goto', 'target': head})
             blk['term'] = B.call(_pseudo_callee('new'), [], dl, mid)
